@@ -982,6 +982,27 @@ fn main_random(args: &[String]) {
             let mut run = Run::new(&cfg);
             let mut raw: Vec<Value> = rec::take();
             let mut sent = 0u64;
+            // every other run starts with the multicast fan-out around a local member whose loop option is
+            // off: (an earlier joiner,) the sender binds the group port, turns the loop off and joins, another
+            // host joins later, then the sender sends to the group - the later joiner must still be served
+            if rng.random_bool(0.5) {
+                let a = rng.random_range(1..=n);
+                let b = a % n + 1;
+                let g = rng.random_range(1..=2);
+                let mk = |cs: Vec<Cmd>| cs;
+                if n >= 3 && rng.random_bool(0.5) {
+                    let c = b % n + 1;
+                    run.step(vec![(c, mk(vec![Cmd::Bind { kind: "any".into(), p: 1 }, Cmd::Join { p: 1, g }]))]);
+                }
+                run.step(vec![(a, mk(vec![Cmd::Bind { kind: "any".into(), p: 1 }, Cmd::SetMl { p: 1, on: false }, Cmd::Join { p: 1, g }]))]);
+                run.step(vec![(b, mk(vec![Cmd::Bind { kind: "any".into(), p: 1 }, Cmd::Join { p: 1, g }]))]);
+                let dst = Dst { k: "mc".into(), h: 0, g, p: 1 };
+                run.step(vec![(a, mk(vec![Cmd::Send { p: 1, dst, len: rng.random_range(2..=9), api: rng.random_range(0..2) }]))]);
+                sent += 1;
+                nsend += 1;
+                nctl += 5;
+                raw.extend(rec::take());
+            }
             let mut zero_last: BTreeMap<u16, u64> = BTreeMap::new();
             let zwin = cfg.gmax / cfg.tick + 12; // covers a script delayed by blocked receives + the latency
             for s in 0..steps {
